@@ -16,6 +16,8 @@
 //         Q hi <interval> <idev> (deprecated SetHeartbeatInterval) | I <idev> <lower> <upper> <system> (SetDeviceInformationInstances)
 //         D <idev> <unique> <function> <class> <manufacturer> <industry> (SetDeviceInformation) | X (Restart) | M <mode> <source> (SetMode after initialisation)
 //         L <which 0..3> <p,p,..|-> (Set/ExtendSingleFrameMessages, Set/ExtendFastPacketMessages at run time)
+//         W t|r <idev> <p,p,..|-> (ExtendTransmitMessages / ExtendReceiveMessages)   O <which 0..4> <0|1> (SetHandleOnlyKnownMessages, SetForwardOnlyKnownMessages,
+//         SetForwardSystemMessages, SetForwardOwnMessages, EnableForward)   K s|p <hex model> <hex sw> <hex version> <hex serial> (SetProductInformation by strings / by pointer)
 // Output: for every op its events (tx:<id>:<len>:<data>:<accepted> res:<0/1> dlv:... note:...) separated by " ; ", then " | " and a
 // dump of internal state (read through -fno-access-control).
 // Unless cold=1 the node is opened and has finished address claiming before the ops start (prelude with an accepting driver).
@@ -302,6 +304,25 @@ static void run_case(const std::string &line) {
         int which = atoi(t[1].c_str()); const unsigned long *l = plist(t[2] == "-" ? std::string("") : t[2])->data();
         if (which == 0) n->SetSingleFrameMessages(l); else if (which == 1) n->ExtendSingleFrameMessages(l);
         else if (which == 2) n->SetFastPacketMessages(l); else if (which == 3) n->ExtendFastPacketMessages(l);
+      }
+      else if (t[0] == "W" && t.size() >= 4) {          // ExtendTransmitMessages / ExtendReceiveMessages at run time
+        const unsigned long *l = plist(t[3] == "-" ? std::string("") : t[3])->data();
+        if (t[1] == "t") n->ExtendTransmitMessages(l, atoi(t[2].c_str())); else n->ExtendReceiveMessages(l, atoi(t[2].c_str()));
+      }
+      else if (t[0] == "O" && t.size() >= 3) {          // handling / forwarding options at run time
+        int which = atoi(t[1].c_str()); bool b = t[2] == "1";
+        if (which == 0) n->SetHandleOnlyKnownMessages(b); else if (which == 1) n->SetForwardOnlyKnownMessages(b);
+        else if (which == 2) n->SetForwardSystemMessages(b); else if (which == 3) n->SetForwardOwnMessages(b); else n->EnableForward(b);
+      }
+      else if (t[0] == "K" && t.size() >= 6) {          // SetProductInformation at run time: K s|p <hex model> <hex sw> <hex version> <hex serial>
+        std::string s[4];
+        for (int k = 0; k < 4; k++) { std::string h = t[2 + k] == "-" ? std::string("") : t[2 + k]; for (size_t i = 0; i + 1 < h.size(); i += 2) s[k].push_back((char)strtoul(h.substr(i, 2).c_str(), 0, 16)); }
+        if (t[1] == "p") { tNMEA2000::tProductInformation *pi = new tNMEA2000::tProductInformation(); pi->Set(s[3].c_str(), 666, s[0].c_str(), s[1].c_str(), s[2].c_str(), 1, 2101, 0); n->SetProductInformation(pi); }
+        else {
+          char *b[4]; for (int k = 0; k < 4; k++) { b[k] = (char *)malloc(s[k].size() + 1); memcpy(b[k], s[k].c_str(), s[k].size() + 1); }   // exact-size heap strings
+          n->SetProductInformation(b[3], 666, b[0], b[1], b[2], 1, 2101, 0);
+          for (int k = 0; k < 4; k++) free(b[k]);
+        }
       }
       else if (t[0] == "M" && t.size() >= 3) n->SetMode((tNMEA2000::tN2kMode)atoi(t[1].c_str()), (uint8_t)tounum(t[2]));
       else if (t[0] == "H" && t.size() >= 3) n->SetHeartbeatIntervalAndOffset((uint32_t)tounum(t[1]), (uint32_t)tounum(t[2]), t.size() > 3 ? atoi(t[3].c_str()) : -1);
